@@ -213,8 +213,13 @@ fn c06_read(ctx: &mut Ctx, recs: &[Rec], ser: Ser, container: &str, bytes: &[u8]
 
 fn rec_variants() -> Vec<Rec> {
     let mut v = Vec::new();
-    for h in ["a", "b12 desc >more @x +y"] {
+    for h in ["a", "b12 desc >more @x +y", ""] {
         for b in [&b""[..], b"A", b"CG", b"ACGTN"] {
+            if h.is_empty() && b.is_empty() {
+                // a record with neither a header text nor bases is the underlying parser's own end-of-input marker;
+                // whether such a "record" is well-formed is not something the property settles: left out
+                continue;
+            }
             v.push(Rec {
                 header: h.to_string(),
                 bases: b.to_vec(),
@@ -561,7 +566,7 @@ pub fn c06(ctx: &mut Ctx) {
         ctx.rep.sample("records [(\"a\",\"\"), (\"b12 desc more\",\"ACGTN\")] as wrapped FASTA width 2, gzip with a member boundary at the record boundary".to_string());
         ctx.rep.sample("records [(\"a\",\"CG\")] as FASTQ, gzip split into two members at byte offset 7".to_string());
         ctx.rep.sample("two records of 32768 and 32769 bases as CRLF FASTA, gzip split in the middle".to_string());
-        ctx.rep.notes.push(format!("C06: every list of 0..={} records from 8 variants (2 headers x base lengths 0,1,2,5) x 6 FASTA and 3 FASTQ serialisations x plain / gzip (compressed, stored) / member boundary at every record boundary / at every byte offset of the first 40 bytes (lists of <= 2 records); long records at buffer edges; read through the iterator and seq_stats", ctx.pick(3, 4)));
+        ctx.rep.notes.push(format!("C06: every list of 0..={} records from 11 variants (3 headers incl. an empty one x base lengths 0,1,2,5, without the header-less base-less one) x 6 FASTA and 3 FASTQ serialisations x plain / gzip (compressed, stored) / member boundary at every record boundary / at every byte offset of the first 40 bytes (lists of <= 2 records); long records at buffer edges; read through the iterator and seq_stats", ctx.pick(3, 4)));
     }
 }
 
@@ -635,8 +640,17 @@ pub fn check_counter_output(dir: &str, records: &[Vec<u8>], k: usize, acgt: bool
 
 fn c07_run(ctx: &mut Ctx, records: &[Vec<u8>], k: usize, threads: usize, mem: f64, acgt: bool, delete: bool, tag: &str) {
     let dir = format!("{}/c07", ctx.scratch);
-    let _ = std::fs::remove_dir_all(&dir);
+    // the counts table of the previous case stays in place (tables get longer and shorter over one directory); only
+    // the temp chunk files of earlier merge(false) cases are cleared, because "no temp file survives" is judged on the
+    // whole directory
     std::fs::create_dir_all(&dir).unwrap();
+    if let Ok(rd) = std::fs::read_dir(&dir) {
+        for e in rd.flatten() {
+            if e.file_name().to_string_lossy().starts_with("temp_kmers") {
+                let _ = std::fs::remove_file(e.path());
+            }
+        }
+    }
     let inp = format!("{}/c07_in.fa", ctx.scratch);
     write_fasta(&inp, records);
     let argv = vec!["case".to_string(), "C07".to_string(), records.iter().map(|r| hex(r)).collect::<Vec<_>>().join(","), k.to_string(), threads.to_string(), format!("{:e}", mem), (acgt as u8).to_string(), (delete as u8).to_string()];
@@ -799,7 +813,7 @@ fn check_cov_rows(text: &str, records: &[Vec<u8>], k: usize, table: &BTreeMap<u1
 #[allow(clippy::too_many_arguments)]
 fn c08_pipeline(ctx: &mut Ctx, records: &[Vec<u8>], alt: Option<&[Vec<u8>]>, k: usize, bs: usize, bc: usize, norm: bool, threads: usize, mem: f64) {
     let dir = format!("{}/c08", ctx.scratch);
-    let _ = std::fs::remove_dir_all(&dir);
+    // the directory of the previous case stays as it is: tables and vector files get longer and shorter over one location
     std::fs::create_dir_all(&dir).unwrap();
     let inp = format!("{}/c08_in.fa", ctx.scratch);
     let altp = format!("{}/c08_alt.fa", ctx.scratch);
